@@ -481,7 +481,7 @@ func indexCommand(cmd *Command) (uniqueLens docLens, termFreqs map[string]fieldT
 }
 
 func (db *Database) collectResults(scores map[int]float64, pq *nlp.ProcessedQuery, options SearchOptions) []SearchResult {
-	results := make([]SearchResult, 0, utils.Min(len(scores), options.Limit*3))
+	results := make([]SearchResult, 0, utils.BufferCap(len(scores), options.Limit, 3))
 	for docID, score := range scores {
 		cmd := &db.Commands[docID]
 
